@@ -143,6 +143,49 @@ def configs(tier: str) -> List[Any]:
     ]
 
 
+def many_requests_case(args) -> Dict[str, Any]:
+    """one module issues hundreds of subscription requests (more distinct types than any table in the core definitions has
+    slots for), pauses / resumes / repeats some of them: every single request is acknowledged, every acknowledgement copied"""
+    tc, n, logger_first = args
+    from .. import lock, mmx
+
+    mmx.fresh_gc()
+    env = lock.Env(timecode=tc, fin_grace=0, hids={"A": 1, "G": 2})
+    a = hub.Alphabet(tc, {"A": (11, 0), "G": (60, 1)})
+    probs: List[Dict[str, Any]] = []
+    sent = 0
+    try:
+        for ev in (a.connect_v2("G", name=b"G") + [["settle"]] + a.connect_v2("A", name=b"A") + [["settle"]]) if logger_first else \
+                (a.connect_v2("A", name=b"A") + [["settle"]] + a.connect_v2("G", name=b"G") + [["settle"]]):
+            env.apply(ev)
+        base_a = sum(1 for k in env.received["A"] if k[0] == "ack")
+        base_g = sum(1 for k in env.received["G"] if k[0] == "ack" and k[1] == 11)
+        reqs = [(P.MT_SUBSCRIBE, 3000 + i) for i in range(n)]
+        reqs += [(P.MT_PAUSE_SUBSCRIPTION, 3000), (P.MT_SUBSCRIBE, 9000), (P.MT_RESUME_SUBSCRIPTION, 3000), (P.MT_SUBSCRIBE, 3001), (P.MT_SUBSCRIBE, 9001),
+                 (P.MT_UNSUBSCRIBE, 3002), (P.MT_SUBSCRIBE, 3002), (P.MT_PAUSE_SUBSCRIPTION, 3003), (P.MT_RESUME_SUBSCRIPTION, 3003), (P.MT_RESUME_SUBSCRIPTION, 9500)]
+        for i, (mt, t) in enumerate(reqs):
+            for ev in a.ctl("A", mt, t):
+                env.apply(ev)
+            sent += 1
+            if i % 40 == 39 or i >= n:
+                env.settle()
+        env.settle()
+        # every subscription is in force: one frame of the first, the last and the late types reaches A
+        for t in (3000, 3000 + n - 1, 9000, 9001, 3002, 3003):
+            for ev in a.data("G", t, b"chk!"):
+                env.apply(ev)
+        env.settle()
+        probs += [dict(p) for p in env.problems if p["prop"] in ("C19", "C03", "C01")]
+        if not env.dead:
+            got_a = sum(1 for k in env.received["A"] if k[0] == "ack") - base_a
+            got_g = sum(1 for k in env.received["G"] if k[0] == "ack" and k[1] == 11) - base_g
+            if got_a != sent or got_g != sent:
+                probs.append({"prop": "C19", "kind": "ack-count", "requests": sent, "acks_at_sender": got_a, "copies_at_logger": got_g})
+    finally:
+        env.close()
+    return {"problems": probs, "rounds": env.rounds, "requests": sent}
+
+
 def run(tier: str) -> int:
     chk = core.Check("C19", tier, "model_checking",
                      "BFS to fixpoint over connection/subscription states of the real MessageManager with the "
@@ -158,9 +201,25 @@ def run(tier: str) -> int:
         for k, v in t.items():
             totals[k] = totals.get(k, 0) + v
         chk.sample({"config": hub.get_cfg(b).name, "ops_example": [l for l, _ in _ops(hub.get_cfg(b), {"live": [("A", 11)], "present": ["A"]})][:12]})
+    margs = [(tc, n, lf) for tc in (False, True) for n in ((255, 256, 257, 300) if tier == "quick" else (64, 127, 128, 129, 255, 256, 257, 300, 1024)) for lf in (False, True)]
+    for marg, r in zip(margs, core.pmap(many_requests_case, margs)):
+        totals["transitions"] = totals.get("transitions", 0) + r["rounds"]
+        totals["requests_of_one_module"] = totals.get("requests_of_one_module", 0) + r["requests"]
+        for p in r["problems"]:
+            chk.violation(f"{p['prop']}:{p['kind']}:many-requests", f"many requests {marg}: {p}", {"module": "vf.checks.c19", "many": list(marg)}, size=marg[1])
     core.close_pool()
     trans = totals.get("transitions", 0) + totals.get("pair_transitions", 0)
     chk.merge_counts(totals)
     chk.assumptions += ["virtual TCP model (vf.net)", "reference hub (vf/spec.py)", "<= 3 modules + 2 loggers + monitor"]
     return chk.finish({"states": totals.get("states", 0), "transitions": trans,
                        "traces_validated_against_impl": trans, "per_config": per_cfg})
+
+
+def replay(case) -> int:
+    args = tuple(case["many"])
+    r = many_requests_case(args)
+    print(f"  many requests {args}")
+    for p in r["problems"][:10]:
+        print("  PROBLEM:", p)
+    print("reproduced" if r["problems"] else "NOT reproduced")
+    return 1 if r["problems"] else 0
